@@ -269,6 +269,11 @@ class Run:
         if status != "discharged":
             ob.model = self._model_json(model)
             ob.smt2 = self.smt2_of(goal_z)
+        elif getattr(self, "sample_smt", False) and not getattr(ob, "excluded", False) and not z3.is_true(z3.simplify(goal_z)):
+            # thorough tier: a deterministic ~4 % sample of the discharged VCs is exported for a second opinion by cvc5
+            import zlib
+            if self.sample_smt == "all" or zlib.crc32((ob.name + "|" + "".join("T" if x else "F" for x in (self.decisions or []))).encode()) % 25 == 0:
+                ob.smt2 = self.smt2_of(goal_z)
         return ob
 
     def _unused(self):
